@@ -703,6 +703,8 @@ SCHEMA_TYPES = [
     "Leaf", "Aliased", "Outer", "List[Leaf]", "Optional[Leaf]", "Dict[str, Outer]", "Gen[int]", "TwoGen", "TwoSame", "Tuple[Leaf, Leaf]", "Union[Leaf, Aliased]",
     "NtOptDictEngList", "NtOptListEngDict", "NtEngineOnly", "NtDialectDict", "NtItemEngine", "SerOverride", "AnnGen",
     "Optional[Any]", "Dict[str, Union[int, Any]]", "List[Optional[Any]]", "Union[str, Any, None]",
+    # values that are == in Python but distinct JSON values
+    "Literal[1, True]", "Literal[False, 0]", "Literal[True, 1, 'a', 0]", "Literal[0, False, None]", "Literal[1.0, 1]",
 ]
 
 KNOWN_TAGS = {
